@@ -326,6 +326,71 @@ class History:
         return problems
 
 
+def stale_cache_probe(seed):
+    """Steer towards the one history the enumerated sequences do not reach by chance: an expression is
+    cached, every reference to its BDD is dropped, the manager collects, and a *different* formula is built
+    until its BDD receives the recycled node identifier; it is stored as a BDD and the automaton printed.
+    The expression shown (if any) must be equivalent to the BDD it labels (z3 on the export)."""
+    import z3
+    import omega.logic.lexyacc as lexyacc
+    import omega.symbolic.fol as fol
+    import omega.symbolic.temporal as trl
+    from vlib import bdd2smt, sem
+    rnd = random.Random(seed)
+    atoms = [f'{v} {op} {k}' for v in ('x', 'y') for op in ('=', '<', '>') for k in range(4)] + \
+            ['x < y', 'x > y', 'x = y', 'x # y', 'x + y = 3', '(x = 0) /\\ (y = 0)', '(x = 1) \\/ (y = 3)']
+    reused = 0
+    problems = []
+    q = {}
+    t1 = time.time()
+    for first in rnd.sample(atoms, 10):
+        aut = trl.Automaton()
+        aut.declare_variables(x=(0, 3), y=(0, 3))
+        aut.varlist.update(env=['x'], sys=['y'])
+
+        def collect():
+            if hasattr(aut.bdd, 'collect_garbage'):
+                aut.bdd.collect_garbage()
+            else:
+                fol._bdd.reorder(aut.bdd)     # CUDD: reordering collects dead nodes
+        aut.init['env'] = first
+        uid = str(aut.init['env'])
+        aut.init['env'] = aut.true
+        collect()
+        for expr in atoms:
+            if expr == first:
+                continue
+            u = aut.add_expr(expr)
+            if str(u) != uid:
+                del u
+                collect()
+                continue
+            reused += 1
+            aut.init['env'] = u          # stored as a BDD: nothing is re-cached
+            text = str(aut)
+            m = re.search(r'^init\[env\] = (.*)$', text, re.M)
+            shown = m.group(1) if m else ''
+            if shown and not shown.startswith('@') and 'Function' not in shown:
+                bits = bdd2smt.Bits()
+                table = {k: v for k, v in aut.vars.items() if not k.endswith("'")}
+                tree = sem.from_omega(lexyacc.Parser().parse(shown), table)
+                term = sem.to_z3(tree, sem.Env(table, bits))[0]
+                r = _equiv(z3, term, bdd2smt.Exporter(aut.bdd, bits).export(u))
+                q[r] = q.get(r, 0) + 1
+                if r != 'unsat':
+                    problems.append(f'after caching {first!r}, dropping it and collecting, the BDD of {expr!r} received the '
+                                    f'recycled identifier {uid} and str(automaton) shows {shown!r}, which is not equivalent ({r})')
+            break
+    name = f'stale expression cache probe #{seed}'
+    sample = dict(node_identifier_reuses=reused, first_expressions=10)
+    dt = time.time() - t1
+    if problems:
+        return [core.res(name, 'violation', queries=q, solver_s=dt, sample=sample, nontrivial=True, functions=FUNCS,
+                         signature='history:stale-expression-cache', detail=problems[0],
+                         cex=dict(kind='stale', seed=seed))]
+    return [core.res(name, 'holds', queries=q, solver_s=dt, sample=sample, nontrivial=reused > 0, functions=FUNCS)]
+
+
 def check_histories(seqs, seed):
     out = []
     for i, seq in enumerate(seqs):
@@ -350,6 +415,9 @@ def check_histories(seqs, seed):
 
 def replay(payload):
     c = payload['cex']
+    if c['kind'] == 'stale':
+        r = stale_cache_probe(c['seed'])
+        return r[0]['status'] == 'violation', r[0]['detail'] or 'shown expressions are equivalent to their BDDs'
     if c['kind'] == 'history':
         r = check_histories([c['seq']], c['seed'])
         return r[0]['status'] == 'violation', r[0]['detail'] or 'history leaves every BDD unchanged'
@@ -372,6 +440,10 @@ def run(tier, seed, t0, only=None):
         for i in range(0, len(sel), size):
             tasks.append(dict(mod='vlib.props.c17', fn='check_histories', kw=dict(seqs=sel[i:i + size], seed=seed), backend=be,
                               timeout=3000, name=f'{be}:histories[{i}]'))
+    for be in ('cudd', 'autoref'):
+        for i in range(2 if tier == 'quick' else 20):
+            tasks.append(dict(mod='vlib.props.c17', fn='stale_cache_probe', kw=dict(seed=seed * 10 + i), backend=be,
+                              timeout=1200, name=f'{be}:stale-cache-probe[{i}]'))
     nseeds = 4 if tier == 'quick' else 40
     for i in range(nseeds):
         tasks.append(dict(mod='vlib.props.c17', fn='backends_and_translators', kw=dict(seeds=[seed * 100 + i]), timeout=3000,
